@@ -208,7 +208,7 @@ def budget_shape():
 
 # ---------------------------------------------------------------- run()
 RUN_TEXT = """def run(self):
-    if self.startup_broadcast:
+    if self.startup_broadcast and self.is_enabled:
         for port in self.ports:
             self.sock.sendto(self._getMessage(port), ('255.255.255.255', UDP_PORT))
     self.running = True
@@ -219,9 +219,9 @@ RUN_TEXT = """def run(self):
             return
         try:
             request = json.loads(msg.decode('utf-8'))
-        except json.JSONDecodeError:
+        except ValueError:
             continue
-        if 'SECoP' not in request or request['SECoP'] != 'discover':
+        if not isinstance(request, dict) or request.get('SECoP') != 'discover':
             continue
         for port in self.ports:
             self.sock.sendto(self._getMessage(port), addr)"""
@@ -261,12 +261,12 @@ def filter_expr():
     return 'list N', cstr(src(tests[0].test))
 
 
-def broadcast_not_guarded_by_enabled():
-    """the start-up broadcast is sent before and independently of the is_enabled test"""
+def broadcast_guarded_by_enabled():
+    """the start-up broadcast is the first statement of run and is sent only `if self.startup_broadcast and self.is_enabled`"""
     f = _run()
     first = f.body[0] if not isinstance(f.body[0], ast.Expr) else f.body[1]
-    ok = (isinstance(first, ast.If) and src(first.test) == 'self.startup_broadcast'
-          and not any(is_self_attr(n, 'is_enabled') for n in ast.walk(first)))
+    ok = (isinstance(first, ast.If) and src(first.test) == 'self.startup_broadcast and self.is_enabled'
+          and not first.orelse)
     return 'bool', cbool(ok)
 
 
@@ -333,7 +333,7 @@ def tcp_port_parse_agrees():
 
 FACTS = [UDP_PORT, MAX_MESSAGE_LEN, budget_port, recv_bufsize, firmware_prefix,
          msg_keys, msg_values, dumps_compact_no_ascii_escape, getmsg_args,
-         init_assignments, budget_shape, loads_catches, filter_expr, broadcast_not_guarded_by_enabled, run_shape,
+         init_assignments, budget_shape, loads_catches, filter_expr, broadcast_guarded_by_enabled, run_shape,
          server_passes_opened_interfaces, interfaces_registered_after_open, tcp_port_parse_agrees]
 
 FINGERPRINTS = {
